@@ -120,6 +120,13 @@ MOLS = {
 
 
 def make_mol(name, basis="sto-3g"):
+    """name or name@bohr: the same molecule with its geometry GIVEN in Bohr (mol.unit = 'Bohr'; what pyscf's geometry
+    optimisers and scanners produce through mol.set_geom_(coords, unit='Bohr'))"""
+    if name.endswith("@bohr"):
+        d = dict(MOLS[name[:-5]])
+        a = gto.M(basis=basis, verbose=0, unit="Angstrom", **d)
+        d["atom"] = [(a.atom_symbol(i), tuple(float(x) for x in a.atom_coord(i))) for i in range(a.natm)]
+        return gto.M(basis=basis, verbose=0, unit="Bohr", **d)
     d = dict(MOLS[name])
     return gto.M(basis=basis, verbose=0, unit="Angstrom", **d)
 
